@@ -20,6 +20,9 @@ def State.handlers (s : State) : List Conn := s.conns ++ s.gone
 theorem inv_reach (n : Nat) (ops : List Op) : Inv (reach n ops) :=
   Machine.invariant_of_step step Inv (fun _ o h => h.step o) ops _ (Inv.init n)
 
+theorem inv2_reach (n : Nat) (ops : List Op) : Inv2 (reach n ops) :=
+  Machine.invariant_of_step step Inv2 (fun _ o h => h.step o) ops _ (Inv2.init n)
+
 theorem got_sub_seq (k : Conn) : ∀ e ∈ k.got, e ∈ k.seq := fun _ he => List.mem_append_left _ he
 
 /-- **One(c) is delivered only to c.** Whatever a handler received with target `One c` was
@@ -38,11 +41,42 @@ theorem any_member (n : Nat) (ops : List Op) :
   rw [hc] at this; exact this
 
 /-- the list captured for `NotifyHandler::Any` is exactly the peer's established connections at the
-moment `handle_behaviour_event` runs (connections established later are not in it) -/
+moment `handle_behaviour_event` runs (connections established later are not in it), and the event is
+stamped with the establishment clock of that moment -/
 theorem any_captured_at_emission (s : State) (p n : Nat) (ch : Option Nat) :
     (handleBeh s (.any p n ch)).pending =
-      some ⟨⟨n, .any ((s.conns.filter (·.peer == p)).map (·.id))⟩,
+      some ⟨⟨n, .any ((s.conns.filter (·.peer == p)).map (·.id)), s.clock⟩,
             .any ((s.conns.filter (·.peer == p)).map (·.id)), ch⟩ := rfl
+
+/-- `spawn_connection` stamps the new connection with the establishment clock and advances it;
+the connection id was fixed long before (when the dial was built / the inbound connection accepted) -/
+theorem established_stamp (s : State) (m : PendMsg) (bad : Bool) (h : m.ok = true) :
+    (reportPending s m bad).1.conns = s.conns ++ [({ id := m.id, peer := m.peer, estAt := s.clock } : Conn)] ∧
+    (reportPending s m bad).1.clock = s.clock + 1 := by
+  unfold reportPending; simp [h]
+
+/-- **An `Any` event is only delivered to a connection that was established when it was emitted**:
+the receiving handler's connection id is in the id list captured at emission, AND that connection's
+establishment strictly precedes the emission on the model's establishment clock — for every
+history, with connection ids allocated at dial/accept time in any order relative to establishment
+(a connection with a smaller id may be established later). -/
+theorem any_delivered_only_to_captured (n : Nat) (ops : List Op) :
+    ∀ k ∈ (reach n ops).handlers, ∀ e ∈ k.got, ∀ ids, e.tgt = .any ids →
+      k.id ∈ ids ∧ k.estAt < e.emitAt := by
+  intro k hk e he ids ht
+  exact ⟨any_member n ops k hk e he ids ht,
+    (inv2_reach n ops).time.seqT k hk e (got_sub_seq k e he) ids ht⟩
+
+/-- the same for what is still queued: nothing queued for a handler was emitted before its
+connection was established -/
+theorem any_queued_only_for_captured (n : Nat) (ops : List Op) :
+    ∀ k ∈ (reach n ops).handlers, ∀ e ∈ Cmd.notes k.q, ∀ ids, e.tgt = .any ids →
+      k.id ∈ ids ∧ k.estAt < e.emitAt := by
+  intro k hk e he ids ht
+  have hs : e ∈ k.seq := List.mem_append_right _ he
+  refine ⟨?_, (inv2_reach n ops).time.seqT k hk e hs ids ht⟩
+  have := ((inv_reach n ops).conns k hk).tgt e hs
+  rw [ht] at this; exact this
 
 /-- **FIFO.** The numbers a handler received are strictly increasing; numbers are assigned in the
 order the behaviour emits, so every handler sees a subsequence of the emission order, each event
@@ -109,9 +143,6 @@ def full_statement : Prop :=
   ∀ (n : Nat) (ops : List Op),
     let s := reach n ops
     ((s.handlers.flatMap (fun k => k.got.map (·.n))) ++ s.dropped.map (·.e.n)).Nodup
-
-theorem inv2_reach (n : Nat) (ops : List Op) : Inv2 (reach n ops) :=
-  Machine.invariant_of_step step Inv2 (fun _ o h => h.step o) ops _ (Inv2.init n)
 
 /-- **Conservation.** After any history every event number issued so far (`< nextEv`) is in exactly
 one place — not yet sent (behaviour queue / `pending_handler_event`), received by or queued for
@@ -237,9 +268,27 @@ example :
     s.dropped.map (·.e.n) = [1, 2] ∧ s.handlers.map (fun k => k.got.map (·.n)) = [[0]] := by
   decide +kernel
 
+/-- non-vacuity of `any_delivered_only_to_captured` where ids and establishment order disagree:
+connection 0 is dialled first (id 0) but completes last; connection 1 (id 1, same peer) is established
+and full when the `Any` event is emitted, so the event is parked; then connection 0 gets established —
+lower id, same peer, empty queue — and the event still waits for connection 1. -/
+example :
+    let ops : List Op := [.dial 1, .connect 1, .poll none, .poll (some 1), .poll none, .resolve 0 1, .poll none,
+      .emit [.one 1, .any 1 (some 1)], .poll (some 0)]
+    let s1 := Machine.exec step (State.init 1) ops
+    let s2 := Machine.exec step (State.init 1) (ops ++ [.poll none, .poll none])
+    s1.pending.map (fun p => (p.e.n, p.e.tgt, p.e.emitAt)) = some (1, .any [1], 1) ∧
+    s1.conns.map (fun k => (k.id, k.estAt, k.q.length)) = [(1, 0, 1), (0, 1, 0)] ∧
+    s2.conns.map (fun k => (k.id, k.estAt, k.got.map (fun e => (e.n, e.emitAt)))) = [(1, 0, [(0, 1), (1, 1)]), (0, 1, [])] ∧
+    s2.bad = false ∧ s2.dropped = [] := by
+  decide +kernel
+
 end C07
 
 #print axioms C07.inv_reach
+#print axioms C07.any_delivered_only_to_captured
+#print axioms C07.any_queued_only_for_captured
+#print axioms C07.established_stamp
 #print axioms C07.inv2_reach
 #print axioms C07.conservation
 #print axioms C07.full_statement_proved
